@@ -489,8 +489,71 @@ pub fn run(r: &mut Runner, level: &str, profile: &str, seed: u64, count: u64, ti
             }
         }
     }
+    if level == "conn" && profile == "C11" {
+        big_response(r);
+    }
     r.finish();
     st
+}
+
+/// C11 on the real write path: a response far larger than a socket buffer must arrive complete, and the
+/// response pipelined behind it must start exactly where the header of the big one says
+pub fn big_response(r: &mut Runner) {
+    use std::io::{Read, Write};
+    let clock = std::sync::Arc::new(crate::sut::Clock(std::sync::atomic::AtomicU64::new(0)));
+    let store: std::sync::Arc<dyn memcrs::cache::cache::Cache + Send + Sync> = std::sync::Arc::new(memcrs::memory_store::store::MemoryStore::new(clock));
+    let limit: u32 = 40 << 20;
+    let srv = crate::net::start_server(store, limit, 8, 30);
+    let value: Vec<u8> = (0..(24usize << 20)).map(|i| (i % 251) as u8).collect();
+    let mut c = std::net::TcpStream::connect(("127.0.0.1", srv.port)).unwrap();
+    c.set_nodelay(true).ok();
+    let set = wire::set_like(op::SET, b"big", &value, 7, 0, 0, 1).bytes();
+    let getk = wire::key_only(op::GETK, b"big", 0, 2).bytes();
+    let noop = wire::bare(op::NOOP, 3).bytes();
+    r.exec(&format!("note big-response set of {} bytes, then getk + noop pipelined", value.len()));
+    let start = r.ops.len() - 1;
+    let writer = {
+        let mut c2 = c.try_clone().unwrap();
+        std::thread::spawn(move || {
+            let _ = c2.write_all(&set);
+            let _ = c2.write_all(&getk);
+            let _ = c2.write_all(&noop);
+            let _ = c2.shutdown(std::net::Shutdown::Write);
+        })
+    };
+    // a slow reader: the server's socket buffer fills up
+    let mut got: Vec<u8> = Vec::with_capacity(value.len() + 1024);
+    let mut buf = vec![0u8; 1 << 16];
+    c.set_read_timeout(Some(std::time::Duration::from_secs(5))).ok();
+    std::thread::sleep(std::time::Duration::from_millis(300));
+    loop {
+        match c.read(&mut buf) {
+            Ok(0) => break,
+            Ok(n) => got.extend_from_slice(&buf[..n]),
+            Err(_) => break,
+        }
+    }
+    let _ = writer.join();
+    let prog = r.prog_start.len().saturating_sub(1);
+    let expect = 24 + 24 + (4 + 3 + value.len()) + 24;
+    let verdict: Result<(), String> = (|| {
+        let frames = wire::split_resps(&got).map_err(|e| format!("the response stream ({} bytes, {} expected) does not split into frames: {}", got.len(), expect, e))?;
+        if frames.len() != 3 {
+            return Err(format!("{} response frames instead of 3 ({} bytes received, {} expected)", frames.len(), got.len(), expect));
+        }
+        let g = wire::parse_resp(&frames[1])?;
+        if g.opaque != 2 || g.value != value || g.key != b"big" {
+            return Err("the get-key response does not carry the stored value".to_string());
+        }
+        let n = wire::parse_resp(&frames[2])?;
+        if n.opaque != 3 || n.opcode != op::NOOP {
+            return Err("the response behind the large one is not the noop's".to_string());
+        }
+        Ok(())
+    })();
+    if let Err(e) = verdict {
+        r.violations.push((prog, vec!["C11"], start, format!("large response over a real socket: {}", e)));
+    }
 }
 
 fn trunc(s: &str) -> String {
